@@ -343,6 +343,7 @@ def make_classes():
             self._channels = ChannelMap()
             self.channels_seen = {}
             self.sent = []
+            self.keep = []
             self.meta = []      # per sent message: (thread, op index, sequence number of the producing critical section)
             self.active = True
             self.recording = True
@@ -426,6 +427,11 @@ def do_op(chan, stub, sched, op):
         return [0, 0]
     if k == "OShutdown":
         chan.shutdown(op[1])
+        return [0, 0]
+    if k == "OStdinClose":
+        f = chan.makefile_stdin("wb")
+        stub.keep.append(f)     # BufferedFile.__del__ calls close() again: keep it alive until the run is over
+        f.close()
         return [0, 0]
     if k == "OSend":
         return [0, chan.send(b"d" * op[1])]
@@ -666,7 +672,7 @@ def oracle(ctx, init, progs, schedule, run, wire):
     meta = run.stub.meta
     for (i, j, op, start, end_len, r) in run.op_log:
         n0, was_closed, was_eof = start
-        if was_closed and was_eof and op[0] in ("OClose", "OShutdown", "OSend", "OSendErr", "ORecv"):
+        if was_closed and was_eof and op[0] in ("OClose", "OShutdown", "OStdinClose", "OSend", "OSendErr", "ORecv"):
             if op[0] in ("OSend", "OSendErr") and r != [1, 6]:
                 ctx.fail("send-after-close-does-not-raise", "send on a closed channel did not raise socket.error",
                          case=case, expected=[1, 6], observed=r)
@@ -686,6 +692,19 @@ def oracle(ctx, init, progs, schedule, run, wire):
                      "was already closed%s" % (names.get(c, str(c)).upper().replace("-", "_"),
                                                " and EOF'd (released channel: nothing may be sent)" if eof0 else ""),
                      case=case, expected="no message", observed=obs)
+    # once our CLOSE has been produced under the lock nothing else may be produced, of any kind: the
+    # channel is closed and EOF'd for ever (C22_released_ops_fail; in particular an EOF is never produced
+    # after the CLOSE -- an EOF that was produced BEFORE the CLOSE and merely emitted after it is the
+    # emission race, reported as a note)
+    close_cs = [meta[idx][2] for idx, (c, a, _) in enumerate(wire) if c == 97]
+    if close_cs:
+        first_close = min(close_cs)
+        for idx, (c, a, _) in enumerate(wire):
+            if meta[idx][2] > first_close:
+                ctx.fail("produced-after-our-close:%s" % names.get(c, str(c)),
+                         "a %s message was produced after our CLOSE had been produced (closed channel: operations "
+                         "must fail or do nothing instead of sending)" % names.get(c, str(c)).upper().replace("-", "_"),
+                         case=case, expected="nothing after CLOSE", observed=obs)
     # data after EOF / CLOSE on the wire
     verdict = None
     ends = []       # (wire index, thread, critical-section number) of EOF / CLOSE messages seen so far
@@ -729,6 +748,12 @@ FIXED = [
     ((True, False, 100, 1000, 0, 109), [[("OPeerFail",)], [("OClose",)], [("OSend", 1)]]),
     ((False, False, 100, 1000, 0, 109), [[("OClose",), ("OShutdown", 1)], [("OPeerClose",), ("OSend", 3)]]),
     ((True, False, 100, 70, 0, 109), [[("OSend", 50)], [("OSendErr", 60)], [("OShutdown", 2)]]),
+    # the peer closes first, then the application keeps using the same object (second / third call)
+    ((True, False, 100, 1000, 0, 109), [[("OPeerClose",)], [("OShutdown", 1), ("OStdinClose",)]]),
+    ((True, False, 100, 1000, 0, 109), [[("OPeerClose",)], [("OStdinClose",), ("OClose",), ("OShutdown", 2)]]),
+    ((True, False, 100, 1000, 0, 109), [[("OPeerEof",), ("OPeerClose",)], [("OStdinClose",)], [("OSend", 3), ("OClose",)]]),
+    ((True, False, 100, 1000, 0, 109), [[("OStdinClose",), ("OStdinClose",)], [("OClose",)]]),
+    ((True, False, 100, 1000, 0, 109), [[("OPeerFail",)], [("OShutdown", 2), ("OStdinClose",)]]),
     # plenty of unread data buffered when the channel gets closed / released (no peer EOF first): later recv
     # calls cross the window threshold and must not send WINDOW_ADJUST
     ((True, False, 100, 1000, 12, 27), [[("OClose",)], [("ORecv", 8), ("ORecv", 8)]]),
@@ -749,11 +774,11 @@ FIXED = [
 
 def gen_op(rng, role):
     if role == "user":
-        k = rng.choice(["OClose", "OShutdown", "OShutdown", "OSend", "OSend", "OSendErr", "ORecv"])
+        k = rng.choice(["OClose", "OShutdown", "OShutdown", "OStdinClose", "OSend", "OSend", "OSendErr", "ORecv"])
     elif role == "peer":
         k = rng.choice(["OPeerEof", "OPeerClose", "OPeerClose", "OPeerWa", "OPeerData", "OPeerFail", "OUnlink"])
     else:
-        k = rng.choice(["OClose", "OShutdown", "OSend", "OSendErr", "ORecv", "OPeerEof", "OPeerClose",
+        k = rng.choice(["OClose", "OShutdown", "OStdinClose", "OSend", "OSendErr", "ORecv", "OPeerEof", "OPeerClose",
                         "OPeerWa", "OPeerData", "OPeerFail", "OUnlink"])
     if k == "OShutdown":
         return (k, rng.choice([1, 1, 2, 0]))
@@ -842,8 +867,8 @@ def run(ctx):
     _t1 = _time.time()
     classes = make_classes()
 
-    budget = 50000 if ctx.thorough else 4500
-    cap_fixed = 6000 if ctx.thorough else 800
+    budget = 50000 if ctx.thorough else 7000
+    cap_fixed = 6000 if ctx.thorough else 500
     cap_rand = 1500 if ctx.thorough else 250
     set_cases = []      # (init, progs, cap, expected)
     walk_cases = []     # (init, progs, schedule, outcome)
@@ -915,7 +940,11 @@ def run(ctx):
     # deal the big cases round-robin so that the files have similar sizes
     dealt = [order[j::nshard] for j in range(nshard)]
     perm = [k for grp in dealt for k in grp]
-    bad = ctx.model_mismatches("run_any", "cinput", [allc[k] for k in perm], shard=shard)
+    try:
+        bad = ctx.model_mismatches("run_any", "cinput", [allc[k] for k in perm], shard=shard)
+    except Exception as e:  # noqa -- the oracle above has already run on every schedule
+        ctx.disagree("the model could not be evaluated: %s" % repr(e)[:400])
+        bad = []
     for b in bad[:3]:
         k = perm[b]
         if k < len(set_cases):
